@@ -380,6 +380,21 @@ Fixpoint capture_cells (HL : list nat) (cs : list nat) : list nat * list nat :=
       end
   end.
 
+(* closure_impl over the cell store with descriptors of both kinds: (true, i) captures the cell of slot base + i,
+   (false, i) copies the handle parent[i] *)
+Fixpoint capture_g (HL : list nat) (parent : list nat) (cells : list nat) (base : nat) (descs : list (bool * nat))
+  : list nat * list nat :=
+  match descs with
+  | [] => (HL, [])
+  | (true, i) :: r =>
+      let c := nth (base + i) cells 0 in
+      match index_of c HL with
+      | Some h => let (HL', ix) := capture_g HL parent cells base r in (HL', h :: ix)
+      | None => let (HL', ix) := capture_g (HL ++ [c])%list parent cells base r in (HL', List.length HL :: ix)
+      end
+  | (false, i) :: r => let (HL', ix) := capture_g HL parent cells base r in (HL', nth i parent 0 :: ix)
+  end.
+
 (* ---- the fragment of stage 1 as proved: no parameters, closure bodies without locals ---- *)
 Fixpoint expr3 (e : expr) : bool :=
   match e with
@@ -400,6 +415,29 @@ Fixpoint stmt3 (s : stmt) : bool :=
   | SDecl _ e | SAssign _ e | SPrint e | SExpr e => expr3 e
   | SBlock b => forallb stmt3 b
   | SLam x [] b => forallb bstmt3 b && negb (existsb (s_mentions x) b)
+  | _ => false
+  end.
+
+
+(* ---- the fragment of stage 1 in its general form (one function level): parameters and arguments, declarations and
+        blocks inside closure bodies, local functions that call / capture themselves; `top` = at depth 0, where
+        `var x = |..| {.. x ..}` is fine because x is then a global looked up when the body runs ---- *)
+Fixpoint stmt4 (top : bool) (s : stmt) : bool :=
+  match s with
+  | SDecl _ e | SAssign _ e | SPrint e | SExpr e => expr2 e
+  | SBlock b => forallb (stmt4 false) b
+  | SLam x ps b => forallb bstmt2 b && (top || negb (existsb (s_mentions x) b))
+  | SFun _ ps b => forallb bstmt2 b
+  | _ => false
+  end.
+
+(* stmt2 without the self-mention restriction (compile correspondence holds on it) *)
+Fixpoint stmt2w (s : stmt) : bool :=
+  match s with
+  | SDecl _ e | SAssign _ e | SPrint e | SExpr e => expr2 e
+  | SBlock b => forallb stmt2w b
+  | SLam x ps b => forallb bstmt2 b
+  | SFun _ ps b => forallb bstmt2 b
   | _ => false
   end.
 
